@@ -16,13 +16,13 @@ CLAIMED = {
     "C06": ("proof", "rank arithmetic of _get_quantiles proved for all alpha in (0,1) and all integer B>=2 from the real AST (valid ranks, upper rank <= (B-1)/B, ranks nested for nested levels)", "A-REAL (floats as reals); numpy.floor/ceil contracts", TECH, "DESIGN 4 C06"),
     "C07": ("proof", "_format_called_contests (raises iff contradictory/unknown, entry values; unbounded list lengths via the pointwise loop rule) and _adjust_called_contests (decision table) proved from the real AST", "A-REAL; numpy.isclose/maximum/minimum contracts; list membership as uninterpreted predicates", TECH, "DESIGN 4 C07"),
     "C09": ("proof", "iff-characterisation of the three frames, first-applicable-reason categories, joined table and derived quantities (0 instead of NaN/inf at zero denominators) proved on the real get_units, _get_non_modeled_units, _get_unexpected_units, __init__ and Estimandizer for both policies and three estimand sets", "A-REAL; V1; V2; outlier models abstracted by their contract (row filter of the frame they receive); np.isclose/nan_to_num contracts", TECH, "DESIGN 4 C09"),
-    "C14": ("proof", "minimum/conf-frac/split arithmetic for all alpha and all n >= minimum (>=1 training row, >=1 calibration row, quantile < 1) and the gate (raises iff n < max minimum) proved from the real expressions/statements; totality of the nonparametric interval path above the gate (C03 unit)", "A-REAL; round-half-even exact; gate proved for 1..3 requested levels (configuration bound); slices of get_estimates executed with the prefix havoc'd", TECH, "DESIGN 4 C14"),
+    "C14": ("proof", "minimum/conf-frac/split arithmetic for all alpha and all n >= minimum (>=1 training row, >=1 calibration row, quantile < 1) and the gate (raises iff n < max minimum) proved from the real expressions/statements; totality of the nonparametric interval path above the gate (C03 unit)", "A-REAL; round-half-even exact (cross-checked in CPython floats by the bounded grid companion for alpha = k/1000, n <= 5000); the gate is proved for an arbitrary number of requested levels with a loop invariant (and for 1..3 levels by unrolling); slices of get_estimates executed with the prefix havoc'd", TECH, "DESIGN 4 C14"),
     "C04": ("proof", "deterministic clause: the real _compute_population_correction returns the smallest calibration score whose baseline-weighted covered share exceeds q (sorted prefix sums), the interval is the raw pair widened by ONE correction on both sides, un-normalised, floored, rounded; split disjoint/exhaustive; own correction per estimand", "prefix-sum contract of sort_values+cumsum (Lean lemmas), np.quantile contract; the probabilistic coverage clause is NOT decided (see DESIGN section 5)", TECH + "; ghost instantiation of prefix-sum lemma instances", "DESIGN 4 C04"),
     "C08": ("proof", "get_national_summary_estimates in all four modes: size check iff, lower <= pred <= upper, threshold mode within [base, base+total weight] and pred = base + weights of positive-margin contests, called contests contribute no uncertainty; typestate: only top-level aggregate calls write the state it reads (proved on the real aggregate functions for four aggregate lists)", "A-REAL; dictionary keys = contest names (precondition); None-weights variant not covered; argsort/gather contracts", TECH, "DESIGN 4 C08"),
     "C13": ("proof", "schema of the merged unit/state tables for 1..3 estimands and non-ascending levels (key/category columns once, every level's column carries that level's interval), own conformal correction per estimand on one model object", "cross-request independence of VALUES for bootstrap/gaussian is not covered by a proof here (see DESIGN)", TECH, "DESIGN 4 C13"),
     "C15": ("other", "mixed: the unit-level gaussian formula (quantile at (3+alpha)/4, sqrt(var_inflate+1)*sigma, floors, whole numbers) is proved from the real AST; which group's calibration statistics are used (own if >= min(10, all), else state, else all), one finite interval per outstanding group on its own row, the aggregate formula and floors are checked by an enumerated small-scope bounded stand-in of the real functions against an oracle written from the statement", "A-SIGMA; the recursive fit cascade and the matching loop are outside the frame theory (rows at mixed aggregation levels, iloc/indicator tricks): bounded only, never counted as proved", "contract-based deductive verification for the formula; bounded stand-in (exhaustive small scope, real code vs statement oracle) for the cascade", "DESIGN 4 C15"),
     "C16": ("exploration", "bounded stand-in: the real Featurizer on every assignment of 3 levels to <= 4/5 units, split points, second fixed effect, selected-level subsets, features, per-state copies, checked clause by clause; plus PROVED call-site alignment (training / calibration / non-reporting slices) and the no-covariate configuration executed symbolically", "dynamic column sets are outside the executable subset: content clauses are not proved", "bounded stand-in on the real class (exploration) + contract-based proofs of the call sites", "DESIGN 4 C16"),
-    "C17": ("proof", "the nested compute_estimated_margin executed from the real AST: accepted histories are monotone with possible batches only, every whole percent 0..latest, imputed margin in [-1,1] (convex combination), first margin before the first observation, 0 at 0%, correction = final - imputed; discarded histories return 101 rows of missing values with the error type", "A-REAL (float columns; integer dtype truncation is outside the proof), V2, numpy positional contracts, lemma mono_of_succ", TECH + "; ghost instantiation, generalisation of nonlinear subterms", "DESIGN 4 C17"),
+    "C17": ("proof", "the nested compute_estimated_margin executed from the real AST: accepted histories are monotone with possible batches only, every whole percent 0..latest, imputed margin in [-1,1] (convex combination), first margin before the first observation, 0 at 0%, correction = final - imputed; discarded histories return 101 rows of missing values with the error type", "A-REAL (the bounded companion runs float64 AND int64 histories on the real code: it found the integer truncation defect F13, now fixed), V2, numpy positional contracts, lemma mono_of_succ", TECH + "; ghost instantiation, generalisation of nonlinear subterms", "DESIGN 4 C17"),
     "C10": ("proof", "self-composition on the real code: changing the count of an outstanding / blocklisted / zero-baseline / unexpected unit leaves every other unit's frame, category, prediction and interval unchanged (get_units, conformal unit predictions and intervals with the solver / featurizer / outlier model as functions of their requests), group sums change only in the unit's own groups, historical results below the threshold are hidden; bounded pairs of real runs for all three estimators (not counted as proved)", "A-QR / Featurizer / outlier model are functions of their inputs; extrapolation and presidential-correction paths not verified; bootstrap and gaussian estimators only through the bounded companions", TECH + "; relational (two-state) VCs", "DESIGN 4 C10"),
     "C11": ("proof", "two-state proofs on the real code: adding a feed unit outside the baseline leaves the modelled frames unchanged and adds exactly one 'unexpected' row whose county/district are the right id components; counted votes, prediction and both bounds of exactly its groups grow by exactly its votes at state/county/district level, classification tables unchanged, new groups created; bootstrap totality (no TypeError) proved with the aggregate units; bootstrap value-independence bounded", "V8 (id shapes); the bootstrap new-state case is a recorded known finding (F9)", TECH + "; relational (two-state) VCs, sum_split / singleton lemma instances", "DESIGN 4 C11"),
     "C12": ("proof", "effect contracts derived from the real ASTs of everything reachable from get_estimates / the national summary: every RNG construction, DataFrame.sample and scipy bootstrap is seeded from the seed setting, draws come from the per-model generator, no ambient inputs, set iteration order never reaches a value, mutable defaults are not mutated, client fields are written before read, a fresh model per run; plus bounded repeat runs of the real client (not counted as proved)", "call resolution by name (over-approximation); library calls outside the classification table are assumed to be functions of their arguments; same-process float reduction order", "contract-based deductive verification: effect/guard contracts discharged by a sound derivation over the real package ASTs (pyvc.effects) + bounded real runs", "DESIGN 4 C12"),
